@@ -127,7 +127,7 @@ NAME_CHARS = ASCII_L + "0123456789" + "-_.:@#" + NONASCII_L
 REALISTIC_NAMES = [
     "class", "style", "id", "data-id", "data-x", "@click", "@click.stop", "x-on:click", ":class", ":href", "x-data", "#ref",
     "aria-label", "v-bind:title", "hx-on::after-request", "disabled", "type", "role", "kwargs", "args", "_", "é", "x.y", "-x",
-    "9", "::", "a...b", "context", "self",
+    "9", "::", "a...b", "context", "self", ":xlink:href", ":x-on:click",
 ]  # fmt: skip
 RESERVED_KW = ("attrs", "defaults")
 # Python-level parameter names of HtmlAttrsNode.render that are not tag inputs (finding D2 when used as extra keywords)
@@ -147,7 +147,8 @@ def direct_ok(name):
 
 
 def spread_ok(name):
-    return ":" not in name[1:] and name not in RESERVED_KW
+    # a key with a LEADING colon (`:href`, `:xlink:href`, Vue / Alpine bindings) is never an aggregate, however many colons follow
+    return (name.startswith(":") or ":" not in name) and name not in RESERVED_KW
 
 
 def agg_ok(name):
